@@ -143,6 +143,19 @@ def oracle_C14(col):
             # the original refuses to serialise; the copy is a rebuild and may legitimately succeed where removal
             # left matcher flags behind (C11's subject): only serialisable originals are judged
             col.stats['not_judged_original_refuses'] += 1
+            if all(h[0] == 'A' for h in hist):
+                # additions only: no removal has left matcher flags behind, so the copy of an element that is merely
+                # incomplete must show the same children, in both views, as its original (a copy that brings back a child
+                # the original does not show is not faithful)
+                e = build(T, hist).el
+                c = call(copy.deepcopy, e)
+                col.stats['incomplete_copies_judged'] += 1
+                if c.ok:
+                    ve = ([x.name for x in e.get_children(ordered=True)], sorted(x.name for x in e.get_children(ordered=False)))
+                    vc = ([x.name for x in c.value.get_children(ordered=True)], sorted(x.name for x in c.value.get_children(ordered=False)))
+                    if ve[0] != vc[0]:
+                        col.add(T, 'copy-serialises-differently', [st.names(), opj(op), 'incomplete-original:ordered-children'], pre, op,
+                                observed=[ve[0], vc[0]])
             return
         hist = list(pre.hist) + [op]
         key = [st.names(), opj(op)]
